@@ -68,19 +68,19 @@ Theorem C19_gather_chunks_value : forall keyed,
 Proof. exact group_chunks_value. Qed.
 Print Assumptions C19_gather_chunks_value.
 
-Theorem C19_gather_stack_value : forall chunks res em,
-  R_gather_stack chunks = Some (res, Some em) ->
+Theorem C19_gather_stack_value : forall b chunks res em,
+  R_gather_stack b chunks = Some (res, Some em) ->
   map (fun km => (fst km, R_mscale_r (snd km) (pow10 em))) res = map kvalue chunks.
 Proof. exact gather_stack_value. Qed.
 Print Assumptions C19_gather_stack_value.
 
-Theorem C19_gather_stack_plain : forall chunks res,
-  R_gather_stack chunks = Some (res, None) -> res = map kvalue chunks.
+Theorem C19_gather_stack_plain : forall b chunks res,
+  R_gather_stack b chunks = Some (res, None) -> res = map kvalue chunks.
 Proof. exact gather_stack_plain. Qed.
 Print Assumptions C19_gather_stack_plain.
 
-Theorem C19_gather_stack_factors_le_1 : forall chunks res em k m e,
-  R_gather_stack chunks = Some (res, Some em) -> In (k, Strip m e) chunks ->
+Theorem C19_gather_stack_factors_le_1 : forall b chunks res em k m e,
+  R_gather_stack b chunks = Some (res, Some em) -> In (k, Strip m e) chunks ->
   e <= em /\ pow10 (e - em) <= 1.
 Proof. exact stack_factors_le_1. Qed.
 Print Assumptions C19_gather_stack_factors_le_1.
@@ -144,7 +144,7 @@ Theorem C19_zero_slice_check_zero :
              (match X_sum true true zs_prog zs_slices with Some s => s | None => Plain (MScal XNaN) end) = true /\
   X_sum true true zs_prog [nth 1 zs_slices []; nth 1 zs_slices []; nth 0 zs_slices []] =
      Some (Strip (MArr [XNaN; XNaN; XNaN; XNaN]) (XF 4)) /\
-  X_stack true true zs_prog [0;1]%nat zs_slices = None.
+  X_stack true true false zs_prog [0;1]%nat zs_slices = None.
 Proof. vm_compute. repeat split; reflexivity. Qed.
 Print Assumptions C19_zero_slice_check_zero.
 
